@@ -173,4 +173,14 @@ def noUnusedVariablesPerOp (d : Doc) : Prop :=
 /-- operation keys (names, `""` for an anonymous operation) are pairwise distinct -/
 def uniqueOpKeys (d : Doc) : Prop := (d.defs.filterMap Def.opKey?).Nodup
 
+/-- variable `x` is used at position `u` by the operation definition `df` -/
+def UsedAtByOp (s : SchemaD) (d : Doc) (df : Def) (x : String) (u : Usage) : Prop :=
+  (x, u) ∈ defUsages s df ∨
+  ∃ f, (∃ g, g ∈ defSpreads df ∧ FragReach d g f) ∧ ∃ df' ∈ d.defs, df'.fragName? = some f ∧ (x, u) ∈ defUsages s df'
+
+/-- 5.8.5 per operation definition: every usage is allowed for THE definition of the variable -/
+def variablesInAllowedPositionPerOp (s : SchemaD) (d : Doc) : Prop :=
+  ∀ df ∈ d.defs, df.opKey?.isSome = true → ∀ x u, UsedAtByOp s d df x u →
+    ∀ vd ∈ df.vars, vd.name = x → usageAllowed s vd u
+
 end PyGql.Validate.Spec
